@@ -1135,6 +1135,7 @@ class CanBeVaries(Element):
 
         # the name was found in the references but it's not a valid reference (e.g. Component('CX'))
         if self.name and not self.name.startswith('VARIES') and self.datatype is None:
+            self.parent = None  # refused: the element does not stay attached to the parent it was given
             raise InvalidName(self.classname, self.name)
 
         if self.name:  # the datatype has been valued by the finder
@@ -1142,6 +1143,7 @@ class CanBeVaries(Element):
             # TODO: should check if it is VARIES
             if Validator.is_strict(self.validation_level) and None not in (datatype, self.datatype) and \
                     datatype != self.datatype:
+                self.parent = None  # refused: the element does not stay attached to the parent it was given
                 raise OperationNotAllowed("Cannot override datatype in strict mode")
             # in TOLERANT we overwrite it only if the given one is not None
             elif datatype is not None:
@@ -1451,6 +1453,7 @@ class Field(SupportComplexDataType):
 
         if datatype is not None and Validator.is_strict(validation_level) and \
                 datatype != 'varies' and datatype != self.datatype:
+            self.parent = None  # refused: the element does not stay attached to the parent it was given
             raise OperationNotAllowed("Cannot assign a different datatype with strict validation")
 
         if datatype is not None:  # force the datatype to be the one chosen by the user
